@@ -1,4 +1,4 @@
-CONSTANTS MaxFeatures = 9 MinFeatures = 5
+CONSTANTS MaxFeatures = 9 MinFeatures = 5 Avoid = {"f_subpackage", "f_upper_file"}
 SPECIFICATION Spec
 INVARIANT Inv_WF
 INVARIANT Inv_Default
